@@ -454,6 +454,41 @@ def part_b_case(ctx, i, rng):
         ctx.sample(dict(part="B", depth=depth, how=how, dirs=w["dirs"], resolved={k: short(cfg.get(k), 120) for k in expected}))
 
 
+def list_file_case(ctx, i, rng):
+    """a plain-line list file named on the command line by a relative path: the file is found from the process cwd, its
+    lines are resolved against the list file's own directory"""
+    root = os.path.join(ctx.workdir, f"lf{i % 4}")
+    shutil.rmtree(root, ignore_errors=True)
+    sub = rng.choice(["sub", "a/b", "lists"])
+    os.makedirs(os.path.join(root, "here", sub, "data"))
+    os.makedirs(os.path.join(root, "here", "data"))
+    for d in (os.path.join(root, "here", sub, "data"), os.path.join(root, "here", "data")):
+        open(os.path.join(d, "x.txt"), "w").write("x")
+    with open(os.path.join(root, "here", sub, "files.lst"), "w") as f:
+        f.write("data/x.txt\n./data/../data/x.txt\n")
+    q = ArgumentParser(exit_on_error=False)
+    q.add_argument("--fs", type=List[Path_fr], enable_path=True)
+    spelling = rng.choice(["relative", "dot-relative", "absolute", "parent-relative"])
+    given = {"relative": f"{sub}/files.lst", "dot-relative": f"./{sub}/files.lst", "absolute": os.path.join(root, "here", sub, "files.lst"), "parent-relative": f"../here/{sub}/files.lst"}[spelling]
+    old = os.getcwd()
+    os.chdir(os.path.join(root, "here"))
+    try:
+        o = call(q.parse_args, ["--fs", given] if rng.random() < 0.5 else [f"--fs={given}"])
+        after = os.getcwd()
+    finally:
+        os.chdir(old)
+    ctx.count("mon.list_file_on_argv")
+    ctx.evaluation(("B-list-file", sub, spelling))
+    w = dict(list_file=given, cwd="<root>/here", outcome=o.brief())
+    exp = os.path.join(root, "here", sub, "data", "x.txt")
+    if os.path.realpath(after) != os.path.realpath(os.path.join(root, "here")):
+        ctx.violation("relative", "cwd-not-restored/list-file", dict(w, after=after))
+    elif not o.accepted:
+        ctx.violation("relative", f"list-file-named-by-path-rejected/{spelling}", w)
+    elif [os.path.realpath(x.absolute) for x in o.value.fs] != [os.path.realpath(exp)] * 2:
+        ctx.violation("relative", f"list-file-lines-not-resolved-against-the-list-file/{spelling}", dict(w, got=short(o.value.fs)))
+
+
 def run_shard(ctx):
     capdrop = drop_caps()
     ctx.extra(capabilities_dropped=capdrop)
@@ -475,5 +510,7 @@ def run_shard(ctx):
         part_a(ctx, rng, capdrop)
     for i, r in ctx.cases():
         part_b_case(ctx, i, r)
+        if i % 5 == 0:
+            list_file_case(ctx, i, r)
         if i > (1500 if ctx.tier == "quick" else 8000):
             break
